@@ -73,6 +73,54 @@ func main() {
 		os.Exit(cmdCheck(os.Args[2:]))
 	case "list":
 		cmdList(os.Args[2:])
+	case "modset":
+		p, err := loadAll()
+		if err != nil {
+			fmt.Println(err)
+			os.Exit(2)
+		}
+		fn := p.ByKey[os.Args[2]]
+		e := NewEnc(p, fn, &FuncContract{})
+		// direct callees and whether their modsets contain the key
+		want := ""
+		if len(os.Args) > 3 {
+			want = os.Args[3]
+		}
+		seen := map[string]bool{}
+		for _, b := range fn.Blocks {
+			for _, in := range b.Instrs {
+				m := map[string]*Sort{}
+				e.instrModKeys(in, m, false)
+				if want == "" {
+					continue
+				}
+				if _, ok := m[want]; ok && !seen[in.String()] {
+					seen[in.String()] = true
+					w := &who{params: map[int]bool{}}
+					e.modsetOf(fn)
+					e.classifyWrite(fn, in, want, w)
+					fmt.Printf("   %s %s  other=%v fresh=%v params=%v\n", p.posString(in.Pos()), in.String(), w.other, w.fresh, w.params)
+				}
+			}
+		}
+		if want == "" {
+			for _, k := range sortedKeys(e.modsetOf(fn)) {
+				fmt.Println(k)
+			}
+		}
+	case "fvtargets":
+		p, err := loadAll()
+		if err != nil {
+			fmt.Println(err)
+			os.Exit(2)
+		}
+		p.funcValueTargets(p.ByKey["core.Fork.step"].Signature)
+		for _, k := range sortedKeys(p.fvTargets) {
+			if len(os.Args) > 2 && !strings.Contains(k, os.Args[2]) {
+				continue
+			}
+			fmt.Println(k, len(p.fvTargets[k]))
+		}
 	default:
 		fmt.Fprintln(os.Stderr, "unknown command", os.Args[1])
 		os.Exit(2)
@@ -103,7 +151,7 @@ func cmdVerify(args []string) {
 	if *fn == "all" {
 		keys = nil
 		for _, k := range p.Cs.Order {
-			if fc := p.Cs.Funcs[k]; !fc.Trusted && !fc.IsIface {
+			if fc := p.Cs.Funcs[k]; !fc.Trusted && !fc.IsIface && !fc.Inline {
 				keys = append(keys, k)
 			}
 		}
